@@ -172,7 +172,7 @@ theorem dispLoop_idle (c : Cfg) (n : Nat) (s : St) (e : TEv) (rest : List TEv) (
   rw [h1, h2]
   simp only [Bool.false_eq_true, ↓reduceIte]
   rw [select_idle c s e rest hu h hlate hz]
-  simp only [Bool.false_eq_true, ↓reduceIte]
+  simp only [Bool.false_eq_true, ↓reduceIte, afterRead]
   rw [checkFails_zero c _ (by simpa using hu.lp)]
   simp
 
@@ -187,24 +187,24 @@ theorem read_legal (c : Cfg) (hq : Quiet c) (s : St) (e : TEv) (rest : List TEv)
   rw [h1]
   simp only [Bool.false_eq_true, ↓reduceIte, hs, h]
   unfold readEvents applyLegal
-  simp only [hle, ↓reduceIte, m, h, List.tail_cons]
+  simp only [hle, ↓reduceIte, m, h, List.tail_cons, Bool.not_true, Bool.false_eq_true]
   cases hev : e.ev with
   | message op p frag =>
-    simp only [deliverMessage, gen_msgOpcode, gen_dataFirst, ↓reduceIte]
+    simp only [handleEv, deliverMessage, gen_msgOpcode, gen_dataFirst, ↓reduceIte]
     rw [callback_quiet c hq]
     simp only []
     rw [callback_quiet c hq]
-    simp [List.append_assoc]
+    simp [asRead, List.append_assoc]
   | ping p =>
     have hw : ({ s with evs := rest, arr := s.arr + e.dt } : St).writable = true := by
       simp [St.writable, hs, ho, hd]
-    simp only [hw, ↓reduceIte]
+    simp only [handleEv, hw, ↓reduceIte]
     rw [callback_quiet c hq]
-    simp [St.emit, List.append_assoc]
+    simp [asRead, St.emit, List.append_assoc]
   | pong p =>
-    simp only []
+    simp only [handleEv]
     rw [callback_quiet c hq]
-    simp
+    simp [asRead]
   | close b => simp [hev, isLegal] at hleg
   | eof => simp [hev, isLegal] at hleg
   | reset => simp [hev, isLegal] at hleg
@@ -228,7 +228,7 @@ theorem dispLoop_legal (c : Cfg) (hq : Quiet c) (n : Nat) (s : St) (e : TEv) (re
   simp only [↓reduceIte]
   have hu1 := up_now hu (max s.now (s.arr + e.dt))
   rw [read_legal c hq _ e rest hu1 (by simpa using h) hleg (by simp; omega)]
-  simp only []
+  simp only [afterRead]
   rw [checkFails_zero c _ (applyLegal_up c _ e hu1).lp]
   simp only [Bool.false_eq_true, ↓reduceIte]
   congr 1
